@@ -452,11 +452,19 @@ func simRun(t *testing.T, fn func() *verifkit.Failure) (res *verifkit.Failure) {
 	go func() {
 		select {
 		case <-done:
-		case <-time.After(120 * time.Second):
+		case <-time.After(300 * time.Second):
+			// virtual time cannot pass a goroutine that waits for a lock (or spins): a scenario of milliseconds that takes
+			// five minutes of real time is a deadlock or a livelock in the code under test
 			buf := make([]byte, 1<<20)
 			buf = buf[:runtime.Stack(buf, true)]
-			fmt.Fprintf(os.Stderr, "SIMNET-WATCHDOG: bubble stuck for 120s of real time\n%s\n", buf)
-			os.Exit(3)
+			var stuck []string
+			for _, g := range strings.Split(string(buf), "\n\n") {
+				if strings.Contains(g, "synctest") && (strings.Contains(g, "sync.(*Mutex)") || strings.Contains(g, "sync.(*RWMutex)") || strings.Contains(g, "semacquire")) {
+					stuck = append(stuck, g)
+				}
+			}
+			fmt.Fprintf(os.Stderr, "SIMNET-WATCHDOG: bubble stuck for 300s of real time\n%s\n", buf)
+			verifkit.AbortCase("hang", fmt.Sprintf("the scenario did not finish within 300 s of real time; goroutines waiting for locks:\n%s", strings.Join(stuck, "\n\n")))
 		}
 	}()
 	defer close(done)
